@@ -41,7 +41,7 @@ class ModuleInfo:
             for child in ast.iter_child_nodes(parent):
                 child._parent = parent
         self.imports = {}       # local name -> (module, original name) for "from .x import y" / "import z"
-        for n in self.tree.body:
+        for n in ast.walk(self.tree):       # function-level imports too (`import codefind` inside a resolver)
             self._collect_import(n)
 
     def _collect_import(self, n):
